@@ -2,16 +2,36 @@
 
 Crash-point / fault enumeration on the real tagging pipeline (single process and --multiprocess, nla and chic),
 each execution in a forked child so that a kill is real (os._exit at the injection point) and an exception is an
-injected RuntimeError.  Injection points are discovered by an instrumented fault-free run: before/after EVERY
-molecule write, before/after the read-group header rewrite, before/inside/after sort, before/after index, every
-pool job, before/inside/after merge, temp-folder cleanup.
+injected RuntimeError.  Injection points are discovered by an instrumented fault-free run, on two levels:
+
+* site level: before/after EVERY molecule write, before/after the read-group header rewrite, before/inside/after
+  sort, before/inside/after index, every pool job, before/inside/after merge, temp-folder cleanup, input
+  verification, every file-system call the pipeline modules make (remove / rename / move / makedirs), every write of
+  the status file (cannot be opened / partially written / after);
+* line level: before EVERY executed source line of the three pipeline modules (bamtagmultiome.py, bamFunctions.py,
+  tagging.py) - all Python-level step boundaries, not a chosen subset (sys.settrace in the child; the fault is raised
+  from the trace function and so surfaces at that line).
+
+Configurations: option letters (-head, --no_rejects, -contig, -skip_contig, --consensus with a reference), output
+path letters (relative path, '.bam' inside the name, not-yet-existing directory, .cram), samtools present (modelled
+`which` + `os.system`: header rewrite and merge through the external tool, working or failing), re-run over the
+finished output of an earlier run on ANOTHER input.
 Oracle: status never says success unless the run returned normally; whenever it says success the output BAM
 exists, reads to EOF, is coordinate sorted, has a usable index and holds every input record.
 """
+import errno
+import gzip
+import json
 import os
+import re
+import select
 import shutil
+import signal
+import struct
 import sys
 import tempfile
+import time
+import zlib
 
 import pysam
 
@@ -23,65 +43,292 @@ ID = 'C20'
 RULE = ('every injection point discovered by an instrumented fault-free run (molecule write k of n, header rewrite, sort, index, '
         'pool job j, merge, temp-folder cleanup, input verification, failing arguments; before/after and, for sort and merge, inside = half-written output) x fault kind '
         '{exception, kill, interrupt} x {single, --multiprocess} x {nla, chic} x {fresh output path, re-run over the finished output of an earlier run}; thorough adds every pair of consecutive points for exceptions; '
+        'audit wave: + LINE level = before every executed source line of bamtagmultiome.py / bamFunctions.py / tagging.py (quick: exception at the first and last '
+        'occurrence of every line, kill once per distinct on-disk state, interrupt once per distinct (state, call stack); thorough: every occurrence x 3 kinds for nla); '
+        '+ sites index-inside (half-written .bai), every remove/rename/move/makedirs of the pipeline modules, every status-file write (open fails / partial text / after), '
+        'fault kind oserror (ENOSPC) at all sites; + configurations {-head, --no_rejects, -contig, -skip_contig, --consensus -ref, relative output path, ".bam" inside the output name, '
+        'output in a not-yet-existing directory, .cram output, samtools present (header rewrite and merge via the external tool: works / fails / fails with half an output / '
+        'fails leaving a valid BAM without the records), -contig of a contig without reads (merge receives one file and moves it)}; '
+        '+ sort / merge dying after a VALID output without the records (inside-subset) and all three sort attempts failing in every variant; '
+        '+ a DAMAGED INPUT: one payload byte of BGZF block k flipped, for every block (EOF marker and index intact, reading that block fails); '
+        '+ cluster mode with the local scheduler (per-contig jobs and the final merge/index/rm/echo command really run as shell scripts; samtools, rm and the tagger '
+        'executable are stand-ins on PATH; failing: merge, index, either rm, either job, a damaged input); '
+        '+ a real multiprocessing.Pool whose workers raise or die (parent hangs and is killed after a timeout); '
+        'the earlier run of a re-run case used ANOTHER input, so a surviving output is recognisably stale; '
         'non-trivial = fault injected after at least one molecule was written; states = executions in forked children')
 ASSUMPTIONS = [
-    'kills land at Python-level step boundaries (and one modelled mid-sort / mid-merge point), not inside htslib',
-    'pool jobs run in-process under the ScheduledPool; killing one OS worker of a real Pool is not explored (it hangs, status stays unfinished)',
+    'kills land at Python-level step boundaries (and one modelled mid-sort / mid-merge / mid-index point), not inside htslib',
+    'pool jobs run in-process under the ScheduledPool (a kill inside pool job j models "worker j died and the hung parent was killed afterwards"); '
+    'with a real Pool (thorough) dying workers make the parent wait for ever: it is killed after 25 s and the status is judged then',
     'a normally returning run is not required to say success (the property only constrains what success means)',
+    'a fault that strikes after this run itself has already written the success status (inside/after the final status write, later clean-up) '
+    'is not a failed tagging step: then only the second clause (the output must be complete) is judged',
+    'a fault before the run has touched its input or written anything is not a tagging step: not combined with a stale success status',
+    'with -head / --no_rejects the set of records to expect is left open by the property: only existence, EOF, order and index are judged; '
+    'with -contig / -skip_contig every input record of the selected contigs must be present; with --consensus every input record',
+    'samtools is not installed: its presence is modelled (which() finds it; the two command lines the pipeline hands to os.system are executed by a '
+    'stand-in built on the bundled pysam, which returns 0, or returns a failure status with nothing / half an output written)',
+    'cluster mode: only the local scheduler is reachable offline; samtools (merge, index, view) and rm are stand-ins on PATH built on the bundled pysam; '
+    'its final command reports success with the text "All done", which is judged like the success text of the other modes; every per-contig job also '
+    'processes the unmapped reads, so the merged output is judged as a superset of the input',
+    'a damaged input block is a failure "while reading": the records of that block cannot be in the output, so a success status is a violation',
+    'not reachable from the command line, hence not explored: tiling of contigs into bins under --multiprocess (the tagger forces one contig per process), '
+    '-blacklist (needs bedtools), consensus in single-process mode (refused)',
+    'a read-only output directory cannot be produced by chmod here (the checks run as root): it is represented by the oserror kind at every file-system call '
+    'and status write; a status file that cannot even be opened for the first write is not combined with a stale success text (nothing a run could do)',
+    'an execution that does not end within 60 s is killed and judged like a killed run (exit label "hung")',
 ]
 SUCCESS = 'Reached end. All ok!'
 BGZF_EOF = bytes.fromhex('1f8b08040000000000ff0600424302001b0003000000000000000000')
+STALE_MTIME = 1000000000          # the status / output files of an earlier run are stamped with this time
+PIPE_FILES = ('universalBamTagger/bamtagmultiome.py', 'bamProcessing/bamFunctions.py', 'universalBamTagger/tagging.py')
+
+# configuration letters: extra arguments, output name relative to the run directory, what the output must hold
+#   expect: all | valid (records left open) | superset | ('contig', name) | ('not-contig', name)
+CONFIGS = {
+    'plain': {'argv': [], 'out': 'out.bam', 'expect': 'all', 'modes': ('single', 'multi')},
+    'head': {'argv': ['-head', '2'], 'out': 'out.bam', 'expect': 'valid', 'modes': ('single', 'multi')},
+    'no_rejects': {'argv': ['--no_rejects'], 'out': 'out.bam', 'expect': 'valid', 'modes': ('single', 'multi')},
+    'contig': {'argv': ['-contig', 'cS'], 'out': 'out.bam', 'expect': ('contig', 'cS'), 'modes': ('single', 'multi')},
+    'skip_contig': {'argv': ['-skip_contig', 'cS'], 'out': 'out.bam', 'expect': ('not-contig', 'cS'), 'modes': ('single', 'multi')},
+    'consensus': {'argv': ['--consensus', '-ref', '@REF'], 'out': 'out.bam', 'expect': 'superset', 'modes': ('multi',)},
+    'relpath': {'argv': [], 'out': 'out.bam', 'relative': True, 'expect': 'all', 'modes': ('single', 'multi')},
+    'dotted': {'argv': [], 'out': 'x.bam.d.bam', 'expect': 'all', 'modes': ('single', 'multi')},
+    'samtools': {'argv': [], 'out': 'out.bam', 'expect': 'all', 'modes': ('single', 'multi'), 'samtools': True},
+    # no job produces a file: merge_bams receives the header BAM alone and moves it (and its index) to the output path
+    'onefile': {'argv': ['-contig', 'cE'], 'out': 'out.bam', 'expect': ('contig', 'cE'), 'modes': ('single', 'multi'), 'input': 'empty_contig'},
+    # nothing but consensus reads / nothing at all is written (thorough; quick runs them fault-free only)
+    'no_source_reads': {'argv': ['--no_source_reads'], 'out': 'out.bam', 'expect': 'valid', 'modes': ('single', 'multi'), 'quick_clean_only': True},
+    'consensus_only': {'argv': ['--consensus', '--no_source_reads', '-ref', '@REF'], 'out': 'out.bam', 'expect': 'valid', 'modes': ('multi',),
+                       'quick_clean_only': True},
+    # these two cannot even start (the fault-free run fails): the status must not say success
+    'newdir': {'argv': [], 'out': 'new/sub/out.bam', 'expect': 'all', 'modes': ('single', 'multi'), 'may_fail': True},
+    'cram': {'argv': [], 'out': 'out.cram', 'expect': 'all', 'modes': ('single', 'multi'), 'may_fail': True},
+}
+# the plain run on an input that ends with several blocks of unmapped pairs (damaged-input level only)
+CONFIGS['unmapped_tail'] = {'argv': [], 'out': 'out.bam', 'expect': 'all', 'modes': ('single', 'multi'), 'input': 'unmapped_tail'}
+OPTION_CONFIGS = [c for c in CONFIGS if c not in ('plain', 'unmapped_tail')]
+SAMTOOLS_FAILURES = ('merge-fail', 'merge-fail-half', 'merge-fail-subset', 'rehead-fail', 'rehead-fail-half')
 
 
 def bounds(tier):
-    return {'modes': ['single', 'multi'], 'methods': ['nla', 'chic'], 'kinds': ['exception', 'kill', 'interrupt (KeyboardInterrupt)'],
-            'deviation_bound': 1 if tier == 'quick' else 2, 'input': '10 fragments / 8 molecules on a small and a large contig + unmapped pair'}
+    return {'modes': ['single', 'multi'], 'methods': ['nla', 'chic'],
+            'kinds': ['exception', 'kill', 'interrupt (KeyboardInterrupt)', 'oserror (OSError ENOSPC, site level)'],
+            'levels': ['site (wrapped operations incl. half-written sort / merge / index output, file-system calls, status writes)',
+                       'line (before every executed line of bamtagmultiome.py, bamFunctions.py, tagging.py)'],
+            'line_level': ('exception: first+last occurrence of every line; kill: one per distinct on-disk state; interrupt: one per distinct (state, stack); nla'
+                           if tier == 'quick' else 'every occurrence of every line x {exception, kill, interrupt} for nla; the quick selection for chic'),
+            'configurations': sorted(CONFIGS),
+            'configuration_depth': ('site level (first and last molecule write only) x {exception, kill} x nla; re-run history for the path letters, onefile and samtools' if tier == 'quick' else
+                                    'site level x {exception, kill, interrupt, oserror} x {nla, chic} + line-level kills per on-disk state'),
+            'damaged_input': 'every BGZF block of the input re-written in 300-byte blocks (one flipped payload byte), x {single, multi} x {nla, chic} x {fresh, re-run}; the same on an input ending with four unmapped pairs, plus an impossible record in front of every record of that unmapped tail (valid blocks, the handle survives)',
+            'cluster_mode': ('clean, merge fails (nla)' if tier == 'quick' else
+                             'clean, merge / index / rm .bam / rm .status.txt fail, job cS / cL fails, damaged input (nla); clean (chic); merge fails and job fails as a re-run'),
+            'real_pool': ('clean, every attempt of a worker sort raises' if tier == 'quick' else 'clean; workers raise in sort / after a molecule write; workers die before sort / after a write / after index'),
+            'history': ['fresh output path', 're-run over the finished output (status, BAM, index stamped old) of an earlier successful run on another input'],
+            'deviation_bound': 1 if tier == 'quick' else 2,
+            'fault_sequences': ('all three attempts of a sort failing (before / half output / valid output without records)' if tier == 'quick' else
+                                'pairs of consecutive old points; every point x each of the next 6 points (exceptions); every point x the next status write failing or partial; triple sort failures'), 'input': '10 fragments / 8 molecules on a small and a large contig + unmapped pair'}
 
 
-def build_input(path, method):
-    b = Builder([('cS', 5000), ('cL', 120000)])
+def build_input(path, method, earlier=False, variant=None):
+    """earlier=True: the input of the EARLIER run of a re-run history (one fragment fewer, one moved): its output is
+    recognisably not the output of the later run.  variant 'empty_contig': a third contig without reads and no unmapped pair
+    (with -contig cE no job produces anything: the merge step receives the header file only)"""
+    b = Builder([('cS', 5000), ('cL', 120000)] + ([('cE', 3000)] if variant == 'empty_contig' else []))
     mx = 'scCHIC384C8U3' if method == 'chic' else 'NLAIII384C8U3'
     kw = dict(method=method, mx=mx)
     b.pair('cS', 1000, cell=1, umi='AAA', **kw)
     b.pair('cS', 1000, cell=1, umi='AAA', frag=45, **kw)
     b.pair('cS', 1400, cell=2, umi='ACG', reverse=True, **kw)
-    b.pair('cS', 2000, cell=1, umi='CCC', motif='CTTG', **kw)
+    b.pair('cS', 2400 if earlier else 2000, cell=1, umi='CCC', motif='CTTG', **kw)
     b.pair('cL', 50000, cell=1, umi='GGA', **kw)
     b.pair('cL', 50000, cell=2, umi='GGA', **kw)
     b.pair('cL', 50000, cell=2, umi='GGA', frag=44, **kw)
-    b.pair('cL', 70000, cell=1, umi='TTT', reverse=True, **kw)
+    if not earlier:
+        b.pair('cL', 70000, cell=1, umi='TTT', reverse=True, **kw)
     b.pair('cL', 90000, cell=1, umi='TAT', r2_unmapped=True, **kw)
-    b.unmapped_pair()
+    if variant != 'empty_contig':
+        b.unmapped_pair()
+    if variant == 'unmapped_tail':
+        # several blocks of reads without a coordinate at the end of the file: a read failure inside them is met by the
+        # pass over the unmapped reads only (the pass over the last contig ends at the first of them)
+        for _ in range(3):
+            b.unmapped_pair()
     b.write(path)
+
+
+def _bgzf_block(data):
+    c = zlib.compressobj(6, zlib.DEFLATED, -15)
+    comp = c.compress(data) + c.flush()
+    return (b'\x1f\x8b\x08\x04\x00\x00\x00\x00\x00\xff\x06\x00BC\x02\x00' + struct.pack('<H', len(comp) + 25) + comp +
+            struct.pack('<I', zlib.crc32(data) & 0xffffffff) + struct.pack('<I', len(data)))
+
+
+DAMAGE_CHUNK = 300
+
+
+def reblock(path, damage=None):
+    """rewrite the BAM as many small BGZF blocks (DAMAGE_CHUNK uncompressed bytes each) + EOF block, index it, and - damage=k -
+    flip one payload byte of block k afterwards: EOF marker and index stay intact (the input verification passes), reading block k
+    fails.  Returns the number of data blocks."""
+    raw = gzip.open(path, 'rb').read()
+    blocks = [_bgzf_block(raw[i:i + DAMAGE_CHUNK]) for i in range(0, len(raw), DAMAGE_CHUNK)]
+    with open(path, 'wb') as f:
+        for b in blocks:
+            f.write(b)
+        f.write(BGZF_EOF)
+    pysam.index(path)
+    if damage is not None:
+        off = sum(len(b) for b in blocks[:damage]) + 18 + min(5, len(blocks[damage]) - 27)
+        with open(path, 'r+b') as f:
+            f.seek(off)
+            byte = f.read(1)
+            f.seek(off)
+            f.write(bytes([byte[0] ^ 0xFF]))
+        st = os.stat(path)
+        os.utime(path + '.bai', (st.st_atime + 5, st.st_mtime + 5))      # the index stays newer than the file
+    return len(blocks)
+
+
+def reblock_tail(path, damage=None):
+    """rewrite the BAM so that the mapped part lies in DAMAGE_CHUNK blocks and every record WITHOUT a coordinate (the unmapped
+    tail) in a block of its own, index it, and - damage=j - put a block holding an impossible alignment record (record length 8) in
+    front of tail record j afterwards.  The BGZF layer, the EOF marker and the index stay intact and the file handle survives the
+    error, unlike with a corrupt block: only the pass that reads the unmapped reads meets the failure.  Returns the number of
+    tail records."""
+    raw = gzip.open(path, 'rb').read()
+    if raw[:4] != b'BAM\1':
+        raise HarnessError('C20: not a BAM file')
+    pos = 8 + struct.unpack('<i', raw[4:8])[0]
+    nref = struct.unpack('<i', raw[pos:pos + 4])[0]
+    pos += 4
+    for _ in range(nref):
+        ln = struct.unpack('<i', raw[pos:pos + 4])[0]
+        pos += 4 + ln + 4
+    tail = []
+    first_tail = None
+    while pos < len(raw):
+        size = struct.unpack('<i', raw[pos:pos + 4])[0]
+        refid = struct.unpack('<i', raw[pos + 4:pos + 8])[0]
+        if refid == -1:
+            if first_tail is None:
+                first_tail = pos
+            tail.append((pos, pos + 4 + size))
+        elif first_tail is not None:
+            raise HarnessError('C20: a placed record behind the unmapped tail')
+        pos += 4 + size
+    if first_tail is None:
+        raise HarnessError('C20: the input has no unmapped tail')
+    blocks = [_bgzf_block(raw[i:min(i + DAMAGE_CHUNK, first_tail)]) for i in range(0, first_tail, DAMAGE_CHUNK)]
+    nmapped_blocks = len(blocks)
+    blocks += [_bgzf_block(raw[a:b]) for a, b in tail]
+    with open(path, 'wb') as f:
+        for b in blocks:
+            f.write(b)
+        f.write(BGZF_EOF)
+    pysam.index(path)
+    if damage is not None:
+        bad = _bgzf_block(struct.pack('<i', 8) + b'\0' * 8)
+        k = nmapped_blocks + damage
+        with open(path, 'wb') as f:
+            for b in blocks[:k]:
+                f.write(b)
+            f.write(bad)
+            for b in blocks[k:]:
+                f.write(b)
+            f.write(BGZF_EOF)
+        st = os.stat(path)
+        os.utime(path + '.bai', (st.st_atime + 5, st.st_mtime + 5))      # the index stays newer than the file
+    return len(tail)
+
+
+def build_reference(path):
+    unit = 'ACGTTGCATGCCATGAAGCTTGACCTGA'
+    with open(path, 'w') as f:
+        for name, n in (('cS', 5000), ('cL', 120000)):
+            f.write(f'>{name}\n')
+            s = (unit * (n // len(unit) + 1))[:n]
+            for i in range(0, n, 60):
+                f.write(s[i:i + 60] + '\n')
+    pysam.faidx(path)
 
 
 class _Injected(RuntimeError):
     pass
 
 
+def _status_paths(out):
+    """where a reader may look for the status of `out`: the documented rule (.bam -> .status.txt) read as a suffix rule and as the
+    plain textual replacement"""
+    cands = []
+    if out.endswith('.bam'):
+        cands.append(out[:-4] + '.status.txt')
+    r = out.replace('.bam', '.status.txt')
+    if r != out and r not in cands:
+        cands.append(r)
+    return cands
+
+
+def _read_status(out):
+    """(text or None, stale?) - text of the first existing candidate that says success, else of the first existing one"""
+    found = None
+    for p in _status_paths(out):
+        try:
+            with open(p) as f:
+                text = f.read().strip()
+            stale = int(os.stat(p).st_mtime) == STALE_MTIME
+        except OSError:
+            continue
+        if SUCCESS in text:
+            return text, stale
+        if found is None:
+            found = (text, stale)
+    return found if found is not None else (None, False)
+
+
 class Injector:
     """Counts the events of each site; fires the planned faults. plan: list of (site, occurrence, when, kind)."""
 
-    def __init__(self, plan, log):
+    def __init__(self, plan, log, out_path=None, fire_path=None):
         self.plan = [tuple(p) for p in plan]
         self.counts = {}
         self.log = log          # list of (site, occurrence) in execution order (instrumented run)
+        self.out_path = out_path
+        self.fire_path = fire_path
+        self.armed = {(s, o, w): kind for (s, o, w, kind) in self.plan}
 
     def hit(self, site, when, occ, inside_cb=None):
-        for (s, o, w, kind) in self.plan:
-            if s == site and o == occ and w == when:
-                if w == 'inside' and inside_cb is not None:
-                    try:
-                        inside_cb()
-                    except Exception:
-                        pass
-                if kind == 'kill':
-                    os._exit(137)
-                if kind == 'interrupt':
-                    raise KeyboardInterrupt()     # what a SIGINT (ctrl-c, scheduler soft kill) does to the process
-                raise _Injected(f'injected at {site}#{occ}:{when}')
+        kind = self.armed.get((site, occ, when))
+        if kind is None:
+            return
+        if when in ('inside', 'inside-subset') and inside_cb is not None:
+            try:
+                inside_cb()
+            except Exception:
+                pass
+        self.note_fire()
+        if kind == 'kill':
+            os._exit(137)
+        if kind == 'interrupt':
+            raise KeyboardInterrupt()     # what a SIGINT (ctrl-c, scheduler soft kill) does to the process
+        if kind == 'oserror':
+            raise OSError(errno.ENOSPC, f'injected at {site}#{occ}:{when}')
+        raise _Injected(f'injected at {site}#{occ}:{when}')
 
-    def wrap(self, site, fn, inside_cb_factory=None):
+    def note_fire(self):
+        """what the status file said at the moment the fault struck (observation for the oracle, written before the fault)"""
+        if not self.fire_path or not self.out_path:
+            return
+        text, stale = _read_status(self.out_path)
+        try:
+            fd = os.open(self.fire_path, os.O_WRONLY | os.O_CREAT | os.O_APPEND)
+            os.write(fd, (json.dumps({'status': text, 'stale': stale}) + '\n').encode())
+            os.close(fd)
+        except OSError:
+            pass
+
+    def wrap(self, site, fn, inside_cb_factory=None, subset_cb_factory=None):
         inj = self
 
         def wrapper(*a, **k):
@@ -91,6 +338,8 @@ class Injector:
             inj.hit(site, 'before', occ)
             if inside_cb_factory is not None:
                 inj.hit(site, 'inside', occ, inside_cb_factory(*a, **k))
+            if subset_cb_factory is not None and (site, occ, 'inside-subset') in inj.armed:
+                inj.hit(site, 'inside-subset', occ, subset_cb_factory(*a, **k))
             r = fn(*a, **k)
             inj.hit(site, 'after', occ)
             return r
@@ -108,6 +357,17 @@ class _Shim:
         return getattr(self._real, name)
 
 
+def _header_only(src, dst):
+    """a VALID BAM at dst that holds none of the records of src (a tool that died after the header, or merged nothing, but closed its
+    output properly)"""
+    def cb():
+        with pysam.AlignmentFile(src, check_sq=False) as i:
+            header = i.header.to_dict()
+        with pysam.AlignmentFile(dst, 'wb', header=header):
+            pass
+    return cb
+
+
 def _half_copy(src, dst):
     def cb():
         with open(src, 'rb') as f:
@@ -117,19 +377,157 @@ def _half_copy(src, dst):
     return cb
 
 
-def child_main(inp_path, out_path, tmpdir, mode, method, plan, log_path, extra_argv=()):
+class _StatusFile:
+    """file object handed to write_status: the planned fault strikes in the middle of the text"""
+
+    def __init__(self, real, inj, occ):
+        self._f, self._inj, self._occ = real, inj, occ
+
+    def write(self, text):
+        inj, occ = self._inj, self._occ
+        if ('status_write', occ, 'inside') in inj.armed:
+            self._f.write(text[:max(1, len(text) // 2)])
+            self._f.flush()
+            inj.hit('status_write', 'inside', occ)
+        if ('status_write', occ, 'inside-all-but-newline') in inj.armed:
+            self._f.write(text.rstrip('\n'))
+            self._f.flush()
+            inj.hit('status_write', 'inside-all-but-newline', occ)
+        return self._f.write(text)
+
+    def __enter__(self):
+        return self
+
+    def __exit__(self, *a):
+        self._f.close()
+        if a[0] is None:
+            self._inj.hit('status_write', 'after', self._occ)
+        return False
+
+    def __getattr__(self, name):
+        return getattr(self._f, name)
+
+
+class LineTracer:
+    """sys.settrace hook: every 'line' event of the pipeline modules is an injection point; a planned fault is raised from the trace
+    function, i.e. it surfaces in the traced frame at that line (CPython then switches tracing off: one line fault per run)"""
+
+    def __init__(self, inj, root, want_states):
+        self.inj = inj
+        self.root = root                  # run directory: its file shapes and sizes are the on-disk state
+        self.want_states = want_states
+        self.states = {}
+        self.stacks = {}
+        self.meta = []                    # parallel to the 'line@' entries of inj.log: (state id, stack id)
+        self.wanted = {s for (s, o, w) in inj.armed if s.startswith('line@')}
+
+    def _state(self, frame):
+        items = []
+        for base, dirs, files in os.walk(self.root):
+            dirs.sort()
+            for f in sorted(files):
+                if f in ('events.log', 'fire.json') or f.startswith(('in.bam', 'ref.fa')):
+                    continue
+                p = os.path.join(base, f)
+                try:
+                    size = os.stat(p).st_size
+                except OSError:
+                    size = -1
+                # names hold uuids: keep the shape (depth, extension chain), not the name
+                rel = os.path.relpath(p, self.root)
+                items.append(((rel.count(os.sep), f.split('.', 1)[1] if '.' in f else ''), size))
+        text, stale = _read_status(self.inj.out_path) if self.inj.out_path else (None, False)
+        key = (tuple(sorted(items)), text, stale)
+        stack = []
+        fr = frame
+        while fr is not None:
+            if fr.f_code.co_filename.endswith(PIPE_FILES):
+                stack.append(fr.f_code.co_name)
+            fr = fr.f_back
+        skey = (key, tuple(stack))
+        return self.states.setdefault(key, len(self.states)), self.stacks.setdefault(skey, len(self.stacks))
+
+    def global_trace(self, frame, event, arg):
+        if frame.f_code.co_filename.endswith(PIPE_FILES):
+            return self.local_trace
+        return None
+
+    def local_trace(self, frame, event, arg):
+        if event == 'line':
+            code = frame.f_code
+            site = f'line@{os.path.basename(code.co_filename)}:{code.co_name}:{frame.f_lineno}'
+            inj = self.inj
+            occ = inj.counts.get(site, 0)
+            inj.counts[site] = occ + 1
+            if self.want_states:
+                inj.log.append((site, occ))
+                self.meta.append(self._state(frame))
+            if site in self.wanted:
+                inj.hit(site, 'before', occ)
+        return self.local_trace
+
+
+_REHEAD = re.compile(r"cat '([^']+)'; samtools view -@4 '([^']+)'; \} \| samtools view -b -@4> '([^']+)' &&\s*mv '([^']+)' '([^']+)' && rm '([^']+)'")
+
+
+def _fake_samtools(failing):
+    """stand-in for os.system in bamFunctions when samtools is 'installed'.  It executes the two command lines the pipeline
+    builds - `samtools merge -o OUT IN.. -@ n -f -p -c` and the header-rewrite pipeline `{ cat H.sam; samtools view ORIGIN; } |
+    samtools view -b > TEMP && mv TEMP TARGET && rm H.sam` - with the bundled pysam.  `failing`: subset of SAMTOOLS_FAILURES
+    (exit status 256 with nothing, or with half an output, written)."""
+    def system(cmd):
+        parts = cmd.split()
+        if parts[:2] == ['samtools', 'merge']:
+            out = parts[parts.index('-o') + 1]
+            ins = [p for p in parts[2:] if p.endswith('.bam') and p != out]
+            if 'merge-fail' in failing:
+                return 256
+            if 'merge-fail-half' in failing:
+                _half_copy(ins[-1], out)()
+                return 256
+            if 'merge-fail-subset' in failing:      # a valid BAM without the records, and a failure status
+                _header_only(ins[0], out)()
+                return 256
+            pysam.merge(out, *ins, '-f', '-p', '-c')
+            return 0
+        m = _REHEAD.search(cmd)
+        if m:
+            header_sam, origin, temp, temp2, target, rm = m.groups()
+            if 'rehead-fail' in failing:
+                return 256
+            with pysam.AlignmentFile(header_sam, check_sq=False) as h:
+                header = h.header.to_dict()
+            with pysam.AlignmentFile(origin, check_sq=False) as src, pysam.AlignmentFile(temp, 'wb', header=header) as o:
+                for r in src.fetch(until_eof=True):
+                    o.write(r)
+            if 'rehead-fail-half' in failing:
+                _half_copy(temp, temp)()
+                return 256
+            os.rename(temp2, target)
+            os.remove(rm)
+            return 0
+        return os.system(cmd)
+    return system
+
+
+def child_main(inp_path, out_path, tmpdir, mode, method, plan, log_path, extra_argv=(), samtools=None, chdir=None):
     """runs in the forked child; never returns"""
     code = 3
-    cov = _child_coverage_start()
+    line_level = any(str(p[0]).startswith('line@') for p in plan) or (log_path is not None)
+    cov = None if line_level else _child_coverage_start()
     try:
+        if chdir:
+            os.chdir(chdir)
         tm = tagger.tagger_module()
         import singlecellmultiomics.bamProcessing.bamFunctions as bf
         import singlecellmultiomics.molecule.molecule as mm
+        import singlecellmultiomics.universalBamTagger.tagging as tg
         for mod, name in ((bf, 'add_readgroups_to_header'), (bf, 'pysam'), (tm, 'pysam'), (tm, 'shutil'), (tm, 'run_tagging_tasks'),
                           (tm, 'merge_bams'), (mm.Molecule, 'write_pysam')):
             seam(mod, name)
         log = []
-        inj = Injector(plan, log)
+        abs_out = out_path if os.path.isabs(out_path) else os.path.join(chdir or os.getcwd(), out_path)
+        inj = Injector(plan, log, out_path=abs_out, fire_path=os.path.join(tmpdir, 'fire.json'))
         mm.Molecule.write_pysam = inj.wrap('write_pysam', mm.Molecule.write_pysam)
         bf.add_readgroups_to_header = inj.wrap('header_rewrite', bf.add_readgroups_to_header)
 
@@ -144,30 +542,331 @@ def child_main(inp_path, out_path, tmpdir, mode, method, plan, log_path, extra_a
         def merge_inside(bams, output_path, *a, **k):
             srcs = [b for b in bams if os.path.exists(b)]
             return _half_copy(srcs[-1], output_path) if srcs else (lambda: None)
+
+        def sort_subset(*a, **k):
+            args = list(a)
+            unsorted = [x for x in args if isinstance(x, str) and x.endswith('.unsorted')]
+            return _header_only(unsorted[0], args[args.index('-o') + 1]) if unsorted else (lambda: None)
+
+        def merge_subset(bams, output_path, *a, **k):
+            srcs = [b for b in bams if os.path.exists(b)]
+            return _header_only(srcs[0], output_path) if srcs else (lambda: None)
+
+        def index_inside(*a, **k):
+            # pysam.index(bam_path, options..): a truncated index file next to the BAM
+            path = a[0]
+
+            def cb():
+                with open(path + '.bai', 'wb') as o:
+                    o.write(b'BAI\1\2\0\0')
+            return cb
         real_pysam = bf.pysam
-        shim = _Shim(real_pysam, sort=inj.wrap('sort', real_pysam.sort, sort_inside), index=inj.wrap('index', real_pysam.index))
+        shim = _Shim(real_pysam, sort=inj.wrap('sort', real_pysam.sort, sort_inside, sort_subset), index=inj.wrap('index', real_pysam.index, index_inside))
         bf.pysam = shim
         tm.pysam = shim
         seam(tm, 'verify_and_fix_bam')
         tm.verify_and_fix_bam = inj.wrap('verify_input', tm.verify_and_fix_bam)
         tm.run_tagging_tasks = inj.wrap('pool_job', tm.run_tagging_tasks)
-        tm.merge_bams = inj.wrap('merge', tm.merge_bams, merge_inside)
+        tm.merge_bams = inj.wrap('merge', tm.merge_bams, merge_inside, merge_subset)
         tm.shutil = _Shim(tm.shutil, rmtree=inj.wrap('cleanup', tm.shutil.rmtree))
+        # audit wave: every file-system call the pipeline modules make through their own names (soft seams: the line level
+        # covers the same boundaries whatever the calls are named)
+        over = dict(remove=inj.wrap('fs_remove', os.remove), rename=inj.wrap('fs_rename', os.rename), makedirs=inj.wrap('fs_makedirs', os.makedirs))
+        if samtools is not None:
+            over['system'] = inj.wrap('external_tool', _fake_samtools(samtools))
+            if hasattr(bf, 'which'):
+                bf.which = lambda name, *a, **k: ('/usr/bin/samtools' if name == 'samtools' else shutil.which(name, *a, **k))
+        fs_os = _Shim(os, **over)
+        for mod in (bf, tm):
+            if getattr(mod, 'os', None) is os:
+                mod.os = fs_os
+        if hasattr(bf, 'move'):
+            bf.move = inj.wrap('fs_move', bf.move)
+        if hasattr(tg, 'remove'):
+            tg.remove = inj.wrap('fs_remove', tg.remove)
+
+        def status_open(path, mode_='r', *a, **k):
+            if 'w' not in mode_ or not str(path).endswith('.txt'):
+                return open(path, mode_, *a, **k)
+            occ = inj.counts.get('status_write', 0)
+            inj.counts['status_write'] = occ + 1
+            inj.log.append(('status_write', occ))
+            inj.hit('status_write', 'before', occ)
+            return _StatusFile(open(path, mode_, *a, **k), inj, occ)
+        tm.open = status_open
         argv = [inp_path, '-method', method, '-o', out_path, '-temp_folder', tmpdir]
         if mode == 'multi':
             argv.append('--multiprocess')
         argv += list(extra_argv)
-        exc, sch = tagger.run_tagger(argv, catch_interrupt=True)
+        tracer = None
+        if line_level:
+            tracer = LineTracer(inj, tmpdir, want_states=log_path is not None)
+            sys.settrace(tracer.global_trace)
+        try:
+            exc, sch = tagger.run_tagger(argv, catch_interrupt=True)
+        finally:
+            sys.settrace(None)
         if log_path:
+            meta = iter(tracer.meta) if tracer else iter(())
             with open(log_path, 'w') as f:
                 for s, o in log:
-                    f.write(f'{s}\t{o}\n')
+                    st, sk = next(meta) if s.startswith('line@') else (-1, -1)
+                    f.write(f'{s}\t{o}\t{st}\t{sk}\n')
         code = 0 if exc is None else (130 if isinstance(exc, KeyboardInterrupt) else 3)
     except BaseException:
         code = 4
     finally:
         _child_coverage_stop(cov)
         os._exit(code)
+
+
+# ------------------------------------------------------------------------------------------------------
+# cluster mode (--cluster -sched local): the per-contig jobs and the final merge command run as shell scripts
+# ------------------------------------------------------------------------------------------------------
+CLUSTER_SUCCESS = 'All done'        # what the final command of the cluster mode echoes into the status file
+
+_STUB_TAGGER = r"""#!{python}
+import os, sys
+sys.path.insert(0, {verif!r})
+fail = os.environ.get('C20_JOB_FAIL', '')
+if fail and fail in sys.argv:
+    sys.stderr.write('job failed (injected)\n')
+    sys.exit(1)
+from mc import bind
+bind.bind()
+from singlecellmultiomics.universalBamTagger import bamtagmultiome as tm
+tm.run_multiome_tagging_cmd(sys.argv[1:])
+"""
+
+_STUB_SAMTOOLS = r"""#!{python}
+# stand-in for the samtools binary (merge / index / view as used by the pipeline), built on the bundled pysam
+import os, sys
+import pysam
+sub = sys.argv[1]
+args = sys.argv[2:]
+if sub in os.environ.get('C20_TOOL_FAIL', '').split(','):
+    sys.stderr.write('samtools ' + sub + ': failed (injected)\n')
+    sys.exit(1)
+try:
+    if sub == 'merge':
+        files = [a for a in args if a.endswith('.bam')]
+        for f in files[1:]:
+            if not os.path.exists(f):
+                sys.stderr.write('samtools merge: fail to open ' + f + '\n')
+                sys.exit(1)
+        pysam.merge('-f', '-c', files[0], *files[1:])
+    elif sub == 'index':
+        pysam.index(args[-1])
+    elif sub == 'view' and '-b' in args:
+        with pysam.AlignmentFile('-', 'r', check_sq=False) as i, pysam.AlignmentFile('-', 'wb', template=i) as o:
+            for r in i:
+                o.write(r)
+    elif sub == 'view':
+        path = [a for a in args if not a.startswith('-')][-1]
+        with pysam.AlignmentFile(path, check_sq=False) as i:
+            for r in i.fetch(until_eof=True):
+                sys.stdout.write(r.to_string() + '\n')
+    else:
+        sys.exit(2)
+except Exception as e:
+    sys.stderr.write(str(e) + '\n')
+    sys.exit(1)
+"""
+
+_STUB_RM = r"""#!/bin/sh
+# rm that can be made to fail for one class of files
+for a in "$@"; do
+  case "$a" in
+    *"$C20_RM_FAIL") if [ -n "$C20_RM_FAIL" ]; then echo "rm: cannot remove $a (injected)" >&2; exit 1; fi;;
+  esac
+done
+exec /bin/rm "$@"
+"""
+
+CLUSTER_PLANS = [
+    [],
+    [('cluster_tool', 'merge', 'run', 'fail')],
+    [('cluster_tool', 'index', 'run', 'fail')],
+    [('cluster_rm', '.bam', 'run', 'fail')],
+    [('cluster_rm', '.status.txt', 'run', 'fail')],
+    [('cluster_job', 'cS', 'run', 'fail')],
+    [('cluster_job', 'cL', 'run', 'fail')],
+    [('damaged_input', 9, 'block', 'readerror')],
+]
+
+
+def _cluster_child(d, inp, out, method, plan):
+    code = 3
+    try:
+        os.setpgid(0, 0)
+        os.chdir(d)
+        bindir = os.path.join(d, 'bin')
+        os.makedirs(bindir)
+        verif = os.path.dirname(os.path.dirname(os.path.abspath(tagger.__file__)))
+        for name, text in (('bamtagmultiome.py', _STUB_TAGGER), ('samtools', _STUB_SAMTOOLS), ('rm', _STUB_RM)):
+            with open(os.path.join(bindir, name), 'w') as f:
+                f.write(text.replace('{python}', sys.executable).replace('{verif!r}', repr(verif)))
+            os.chmod(os.path.join(bindir, name), 0o755)
+        os.environ['PATH'] = bindir + os.pathsep + os.environ.get('PATH', '')
+        for s, o, w, k in plan:
+            if s == 'cluster_tool':
+                os.environ['C20_TOOL_FAIL'] = o
+            elif s == 'cluster_rm':
+                os.environ['C20_RM_FAIL'] = o
+            elif s == 'cluster_job':
+                os.environ['C20_JOB_FAIL'] = o
+        argv = [inp, '-method', method, '--cluster', '-sched', 'local', '-o', out]
+        sys.argv = [os.path.join(bindir, 'bamtagmultiome.py')] + argv      # the job command lines are built from sys.argv
+        exc, _ = tagger.run_tagger(argv, catch_interrupt=True)
+        normal = exc is None or (isinstance(exc, SystemExit) and exc.code in (None, 0))
+        code = 0 if normal else 3
+    except BaseException:
+        code = 4
+    finally:
+        os._exit(code)
+
+
+def run_cluster(method, plan, prior=False):
+    """the cluster mode with the local scheduler: every per-contig job and the final merge / index / clean-up / status command really
+    run (bash scripts written by the code under test); `samtools`, `rm` and the tagger executable are stand-ins on PATH"""
+    d = tempfile.mkdtemp(prefix='c20_', dir='/dev/shm')
+    try:
+        inp, out = os.path.join(d, 'in.bam'), os.path.join(d, 'out.bam')
+        if prior:
+            build_input(inp, method, earlier=True)
+            c0 = _fork_wait(lambda: _cluster_child(d, inp, out, method, []))
+            text0, _ = _read_status(out)
+            if c0 != 0 or text0 is None or CLUSTER_SUCCESS not in text0:
+                raise HarnessError(f'C20: the preceding fault-free cluster run did not succeed (exit {c0}, status {text0!r})')
+            for p in _status_paths(out) + [out, out + '.bai']:
+                if os.path.exists(p):
+                    os.utime(p, (STALE_MTIME, STALE_MTIME))
+            shutil.rmtree(os.path.join(d, 'bin'))
+        build_input(inp, method)
+        inrecs = records(inp)
+        for p in plan:
+            if p[0] == 'damaged_input':
+                reblock(inp, damage=p[1])
+        code = _fork_wait(lambda: _cluster_child(d, inp, out, method, plan))
+        if code == 4:
+            raise HarnessError('C20 cluster child failed outside the code under test')
+        text, stale = _read_status(out)
+        viol = []
+        tag = f'cluster:{method}' + (':rerun-over-finished-output' if prior else '')
+        where = '+'.join(f'{s}:{o}' if s != 'damaged_input' else 'damaged_input:block' for s, o, w, k in plan) or 'no-fault'
+        says_success = text is not None and (SUCCESS in text or CLUSTER_SUCCESS in text)
+        if says_success and code != 0:
+            viol.append((f'{tag}:success-status-although-run-failed:{where}', {'exit': code, 'status': text}))
+        if says_success:
+            problem = output_problem(out, inrecs, 'superset')
+            if problem:
+                viol.append((f'{tag}:success-status-but-output-{problem}:{where}', {'exit': code, 'status': text, 'status-from-earlier-run': stale}))
+        return viol, {'exit': code, 'status': text}
+    finally:
+        shutil.rmtree(d, ignore_errors=True)
+
+
+def _fork_wait(fn, timeout=None):
+    """run fn in a forked child (own process group); returns its exit code, or 'hung' when it had to be killed after `timeout` s"""
+    sys.stdout.flush()
+    sys.stderr.flush()
+    pid = os.fork()
+    if pid == 0:
+        try:
+            fn()
+        finally:
+            os._exit(4)
+    t0 = time.time()
+    code = None
+    while True:
+        w, status = os.waitpid(pid, os.WNOHANG if timeout else 0)
+        if w == pid:
+            code = os.waitstatus_to_exitcode(status)
+            break
+        if time.time() - t0 > timeout:
+            code = 'hung'
+            break
+        time.sleep(0.05)
+    try:
+        os.killpg(pid, signal.SIGKILL)          # stragglers of the child's process group (pool workers, shell jobs)
+    except (ProcessLookupError, PermissionError):
+        pass
+    if code == 'hung':
+        try:
+            os.kill(pid, signal.SIGKILL)
+        except ProcessLookupError:
+            pass
+        os.waitpid(pid, 0)
+    return code
+
+
+# ------------------------------------------------------------------------------------------------------
+# a real multiprocessing.Pool: a worker raising / a worker dying
+# ------------------------------------------------------------------------------------------------------
+REALPOOL_PLANS = [
+    [],
+    [('sort', j, 'before', 'exception') for j in range(3)],        # every worker: all attempts of its first sort raise (the exception travels to the parent)
+    [('write_pysam', 0, 'after', 'exception')],
+    [('sort', 0, 'before', 'kill')],             # every worker dies at its first sort: the parent waits for ever
+    [('write_pysam', 0, 'after', 'kill')],
+    [('index', 0, 'after', 'kill')],
+]
+REALPOOL_TIMEOUT = 25
+
+
+def _realpool_child(d, inp, out, method, plan):
+    code = 3
+    try:
+        os.setpgid(0, 0)
+        import multiprocessing
+        multiprocessing.current_process()._config['daemon'] = False      # the engine's workers are daemonic; this child is a plain fork
+        tm = tagger.tagger_module()
+        import singlecellmultiomics.bamProcessing.bamFunctions as bf
+        import singlecellmultiomics.molecule.molecule as mm
+        inj = Injector(plan, [], out_path=out, fire_path=None)
+        # the wrappers live in the memory the pool workers are forked from: every worker counts its own occurrences
+        mm.Molecule.write_pysam = inj.wrap('write_pysam', mm.Molecule.write_pysam)
+        shim = _Shim(bf.pysam, sort=inj.wrap('sort', bf.pysam.sort), index=inj.wrap('index', bf.pysam.index))
+        bf.pysam = shim
+        main_pid = os.getpid()
+        real_hit = inj.hit
+
+        def hit(site, when, occ, inside_cb=None):
+            if os.getpid() != main_pid:              # faults strike in the workers only
+                real_hit(site, when, occ, inside_cb)
+        inj.hit = hit
+        argv = [inp, '-method', method, '-o', out, '-temp_folder', d, '--multiprocess', '-tagthreads', '2']
+        exc, _ = tagger.run_tagger(argv, real_pool=True, catch_interrupt=True)
+        code = 0 if exc is None else 3
+    except BaseException:
+        code = 4
+    finally:
+        os._exit(code)
+
+
+def run_realpool(method, plan):
+    d = tempfile.mkdtemp(prefix='c20_', dir='/dev/shm')
+    try:
+        inp, out = os.path.join(d, 'in.bam'), os.path.join(d, 'out.bam')
+        build_input(inp, method)
+        inrecs = records(inp)
+        code = _fork_wait(lambda: _realpool_child(d, inp, out, method, plan), timeout=REALPOOL_TIMEOUT)
+        if code == 4:
+            raise HarnessError('C20 real-pool child failed outside the code under test')
+        text, stale = _read_status(out)
+        viol = []
+        where = '+'.join(f'worker-{s}:{w}' for s, o, w, k in plan) or 'no-fault'
+        says_success = text is not None and SUCCESS in text
+        if says_success and code != 0:
+            how = 'hung-after-a-worker-died' if code == 'hung' else 'failed'
+            viol.append((f'realpool:{method}:success-status-although-run-{how}:{where}', {'exit': code, 'status': text}))
+        if says_success:
+            problem = output_problem(out, inrecs, 'all')
+            if problem:
+                viol.append((f'realpool:{method}:success-status-but-output-{problem}:{where}', {'exit': code, 'status': text}))
+        return viol, {'exit': code, 'status': text}
+    finally:
+        shutil.rmtree(d, ignore_errors=True)
 
 
 def _child_coverage_start():
@@ -197,74 +896,140 @@ def _child_coverage_stop(cov):
 
 
 BADARGS = {'region': ['-region_start', '5'],                    # -region_start without -region_end
-           'transcriptome': ['-method', 'nla_transcriptome']}    # needs -exons / -introns
+           'transcriptome': ['-method', 'nla_transcriptome'],    # needs -exons / -introns
+           'jobbed': ['-jobbed', '@DIR/jobs.bed'],               # --multiprocess: refused (one contig per process); single: ignored
+           'temp_folder': ['-temp_folder', '@DIR/no-such-dir']}  # --multiprocess: refused; single: not used
 
 
-def _fork_run(inp, out, d, mode, method, plan, log_path, extra_argv=()):
+RUN_TIMEOUT = 60        # seconds; an execution takes well under a second.  A run that hangs (seen: htslib's threaded index on a
+                        # truncated BAM never returns) is killed and judged like a killed run: the status must not say success
+
+
+def _fork_run(inp, out, d, mode, method, plan, log_path, extra_argv=(), samtools=None, chdir=None):
     sys.stdout.flush()
     sys.stderr.flush()
     pid = os.fork()
     if pid == 0:
-        child_main(inp, out, d, mode, method, plan, log_path, extra_argv)
+        child_main(inp, out, d, mode, method, plan, log_path, extra_argv, samtools, chdir)
+    try:
+        fd = os.pidfd_open(pid)
+    except (AttributeError, OSError):
+        fd = None
+    if fd is not None:
+        try:
+            ready, _, _ = select.select([fd], [], [], RUN_TIMEOUT)
+        finally:
+            os.close(fd)
+        if not ready:
+            try:
+                os.kill(pid, signal.SIGKILL)
+            except ProcessLookupError:
+                pass
+            os.waitpid(pid, 0)
+            return 'hung'
     _, status = os.waitpid(pid, 0)
     return os.waitstatus_to_exitcode(status)
 
 
-def run_plan(mode, method, plan, want_log=False, prior=False):
+def run_plan(mode, method, plan, want_log=False, prior=False, config='plain'):
     """plan entries are (site, occurrence, when, kind); the pseudo site 'badargs' (occurrence = key of BADARGS) makes the run
-    fail in its own set-up through its arguments.  prior=True: a complete successful run to the same output path precedes
-    the faulty one (history: the status file and the output of an earlier run exist)."""
+    fail in its own set-up through its arguments; the pseudo site 'samtools' (occurrence in SAMTOOLS_FAILURES) makes the modelled
+    external tool fail.  prior=True: a complete successful run to the same output path precedes the faulty one, on ANOTHER
+    input (history: the status file, the output and the index of an earlier run exist, stamped with an old time)."""
+    cfg = CONFIGS[config]
     d = tempfile.mkdtemp(prefix='c20_', dir='/dev/shm')
     try:
         inp = os.path.join(d, 'in.bam')
-        build_input(inp, method)
-        inrecs = records(inp)
-        out = os.path.join(d, 'out.bam')
-        log_path = os.path.join(d, 'events.log') if want_log else None
-        if prior:
-            c0 = _fork_run(inp, out, d, mode, method, [], None)
-            st = out.replace('.bam', '.status.txt')
-            if c0 != 0 or not os.path.exists(st) or SUCCESS not in open(st).read():
-                raise HarnessError(f'C20: the preceding fault-free run did not succeed (exit {c0})')
+        out_abs = os.path.join(d, cfg['out'])
+        out = cfg['out'] if cfg.get('relative') else out_abs
+        chdir = d if cfg.get('relative') else None
         extra = []
+        for a in cfg['argv']:
+            if a == '@REF':
+                a = os.path.join(d, 'ref.fa')
+                build_reference(a)
+            extra.append(a)
+        samtools = None
+        if cfg.get('samtools'):
+            samtools = tuple(p[1] for p in plan if p[0] == 'samtools')
+        log_path = os.path.join(d, 'events.log') if want_log else None
+        variant = cfg.get('input')
+        if prior:
+            build_input(inp, method, earlier=True, variant=variant)
+            c0 = _fork_run(inp, out, d, mode, method, [], None, extra, () if samtools is not None else None, chdir)
+            text0, _ = _read_status(out_abs)
+            if c0 != 0 or text0 is None or SUCCESS not in text0:
+                raise HarnessError(f'C20: the preceding fault-free run did not succeed (exit {c0})')
+            for p in _status_paths(out_abs) + [out_abs, out_abs + '.bai']:
+                if os.path.exists(p):
+                    os.utime(p, (STALE_MTIME, STALE_MTIME))
+        build_input(inp, method, variant=variant)
+        inrecs = records(inp)
         real_plan = []
         for p in plan:
             if p[0] == 'badargs':
-                extra += BADARGS[p[1]]
-            else:
+                extra += [a.replace('@DIR', d) for a in BADARGS[p[1]]]
+            elif p[0] == 'damaged_input':
+                if p[2] == 'tail-record':
+                    reblock_tail(inp, damage=p[1])
+                else:
+                    reblock(inp, damage=p[1])
+            elif p[0] != 'samtools':
                 real_plan.append(p)
-        code = _fork_run(inp, out, d, mode, method, real_plan, log_path, extra)
+        code = _fork_run(inp, out, d, mode, method, real_plan, log_path, extra, samtools, chdir)
         if code == 4:
             raise HarnessError('C20 child failed outside the code under test (seam missing or harness bug)')
-        status_path = out.replace('.bam', '.status.txt')
-        text = open(status_path).read().strip() if os.path.exists(status_path) else None
+        text, stale = _read_status(out_abs)
+        fire = None
+        fp = os.path.join(d, 'fire.json')
+        if os.path.exists(fp):
+            lines = [l for l in open(fp).read().splitlines() if l.strip()]
+            if lines:
+                fire = json.loads(lines[-1])        # the fault that ended the run is the last one that struck
         events = None
         if want_log and os.path.exists(log_path):
-            events = [tuple(l.rstrip('\n').split('\t')) for l in open(log_path)]
-            events = [(s, int(o)) for s, o in events]
-        viol = judge(mode, method, plan, code, text, out, inrecs, prior)
+            events = []
+            for l in open(log_path):
+                s, o, st, sk = l.rstrip('\n').split('\t')
+                events.append((s, int(o), int(st), int(sk)))
+        viol = judge(mode, method, plan, code, text, out_abs, inrecs, prior, config=config, stale=stale, fire=fire)
         return viol, {'exit': code, 'status': text, 'events': events}
     finally:
         shutil.rmtree(d, ignore_errors=True)
 
 
-def judge(mode, method, plan, code, text, out, inrecs, prior=False):
+def _where(site, occ, when):
+    """signature part: the site class, never the concrete line number"""
+    if site.startswith('line@'):
+        return 'line-in-' + site[5:].split(':')[1]
+    if site == 'samtools':
+        return f'external-{occ}'
+    return f'{site}:{when}'
+
+
+REFINED_SITES = ('status_write', 'fs_remove', 'fs_rename', 'fs_makedirs', 'fs_move', 'external_tool')
+
+
+def judge(mode, method, plan, code, text, out, inrecs, prior=False, config='plain', stale=False, fire=None):
     viol = []
     says_success = (text is not None and SUCCESS in text)
-    tag = f'{mode}:{method}' + (':rerun-over-finished-output' if prior else '')
-    where = '+'.join(f'{s}:{w}' for s, o, w, k in plan) or 'no-fault'
+    tag = f'{mode}:{method}' + (f':{config}' if config != 'plain' else '') + (':rerun-over-finished-output' if prior else '')
+    where = '+'.join(_where(s, o, w) for s, o, w, k in plan) or 'no-fault'
     kinds = '+'.join(sorted({k for s, o, w, k in plan})) or 'none'
-    if says_success and code != 0:
-        how = {137: 'was-killed', 130: 'was-interrupted'}.get(code, 'failed')
-        viol.append((f'{tag}:success-status-although-run-{how}:{where}', {'exit': code, 'status': text}))
+    # points of the audit wave: a fault that strikes after THIS run already reported success is judged by the second clause only
+    refined = any(s.startswith('line@') or s in REFINED_SITES for s, o, w, k in plan)
+    fresh_success_at_fault = bool(fire and fire.get('status') and SUCCESS in fire['status'] and not fire.get('stale'))
+    if says_success and code != 0 and not (refined and fresh_success_at_fault and not stale):
+        how = {137: 'was-killed', 130: 'was-interrupted', 'hung': 'hung'}.get(code, 'failed')
+        viol.append((f'{tag}:success-status-although-run-{how}:{where}', {'exit': code, 'status': text, 'status-from-earlier-run': stale}))
     if says_success:
-        problem = output_problem(out, inrecs)
+        problem = output_problem(out, inrecs, CONFIGS[config]['expect'])
         if problem:
             viol.append((f'{tag}:success-status-but-output-{problem}:{where}', {'exit': code, 'status': text, 'fault': kinds}))
     return viol
 
 
-def output_problem(out, inrecs):
+def output_problem(out, inrecs, expect='all'):
     if not os.path.exists(out):
         return 'missing'
     try:
@@ -290,21 +1055,80 @@ def output_problem(out, inrecs):
     except Exception as ex:
         return f'index-unusable-({type(ex).__name__})'
     key = lambda r: (r['name'], r['seq'], r['qual'], r['contig'], r['pos'], r['cigar'])
-    if sorted(key(r) for r in recs) != sorted(key(r) for r in inrecs):
-        return 'incomplete-(records-differ-from-input)'
+    have = sorted(key(r) for r in recs)
+    if expect == 'all':
+        if have != sorted(key(r) for r in inrecs):
+            return 'incomplete-(records-differ-from-input)'
+    elif expect != 'valid':
+        if expect == 'superset':
+            need = inrecs
+        elif expect[0] == 'contig':
+            need = [r for r in inrecs if r['contig'] == expect[1]]
+        else:
+            need = [r for r in inrecs if r['contig'] is not None and r['contig'] != expect[1]]
+        pool = {}
+        for k in have:
+            pool[k] = pool.get(k, 0) + 1
+        for r in need:
+            k = key(r)
+            if pool.get(k, 0) == 0:
+                return 'incomplete-(an-input-record-of-the-requested-part-is-missing)'
+            pool[k] -= 1
     return None
 
 
-def points_for(mode, method):
-    """instrumented fault-free run -> list of (site, occurrence, when)"""
-    viol, info = run_plan(mode, method, [], want_log=True)
+def points_for(mode, method, config='plain'):
+    """instrumented fault-free run -> (site points [(site, occ, when)], line points [(site, occ, state, stack, started)], ...)"""
+    viol, info = run_plan(mode, method, [], want_log=True, config=config)
     if info['events'] is None:
         raise HarnessError(f'C20: instrumented run produced no event log (exit {info["exit"]}, status {info["status"]})')
-    pts = []
-    for site, occ in info['events']:
-        for when in (('before', 'inside', 'after') if site in ('sort', 'merge') else ('before', 'after')):
+    pts, lines = [], []
+    started = False
+    for site, occ, st, sk in info['events']:
+        if site.startswith('line@'):
+            lines.append((site, occ, st, sk, started))
+            continue
+        started = True
+        if site == 'status_write':
+            whens = ('before', 'inside', 'inside-all-but-newline', 'after')
+        elif site in ('sort', 'merge'):
+            whens = ('before', 'inside', 'inside-subset', 'after')
+        elif site == 'index':
+            whens = ('before', 'inside', 'after')
+        else:
+            whens = ('before', 'after')
+        for when in whens:
             pts.append((site, occ, when))
-    return pts, viol, info
+    return pts, lines, viol, info
+
+
+OLD_SITES = ('write_pysam', 'header_rewrite', 'sort', 'merge', 'cleanup', 'verify_input', 'pool_job')
+
+
+def _is_old_point(p):
+    """the points of the check before the audit wave (their enumeration, pairs and sharding stay as they were)"""
+    return p[2] != 'inside-subset' and (p[0] in OLD_SITES or (p[0] == 'index' and p[2] != 'inside'))
+
+
+def select_lines(lines, kind, every):
+    """line-level points for one fault kind.  every=True: every occurrence.  Otherwise exception: first and last occurrence of every
+    line; kill: the first point of every distinct on-disk state (nothing runs after a kill, so points that share the state on disk are
+    equivalent); interrupt: the first point of every distinct (state, call stack)"""
+    if every:
+        return list(lines)
+    if kind == 'exception':
+        first, last = {}, {}
+        for i, l in enumerate(lines):
+            first.setdefault(l[0], i)
+            last[l[0]] = i
+        return [lines[i] for i in sorted(set(first.values()) | set(last.values()))]
+    out, seen = [], set()
+    for l in lines:
+        k = l[2] if kind == 'kill' else l[3]
+        if k not in seen:
+            seen.add(k)
+            out.append(l)
+    return out
 
 
 def shards(tier):
@@ -312,51 +1136,324 @@ def shards(tier):
     for mode in ('single', 'multi'):
         for method in ('nla', 'chic'):
             for kind in ('exception', 'kill', 'interrupt'):
-                for part in range(4):
-                    out.append((mode, method, kind, part, 4, False))
-                for part in range(4):
-                    out.append((mode, method, kind, part, 4, True))
+                for prior in (False, True):
+                    for part in range(4):
+                        out.append({'level': 'site', 'mode': mode, 'method': method, 'kind': kind, 'part': part, 'nparts': 4, 'prior': prior,
+                                    'config': 'plain'})
+    # audit wave -------------------------------------------------------------------------------
+    for mode in ('single', 'multi'):
+        for method in ('nla', 'chic'):
+            # new sites of the plain configuration (file-system calls, status writes, half-written index) and the oserror kind
+            for kind in ('exception', 'kill', 'interrupt', 'oserror'):
+                if tier == 'quick' and (method == 'chic' or kind == 'interrupt'):
+                    continue
+                for prior in (False, True):
+                    if tier == 'quick' and prior and kind == 'oserror':
+                        continue
+                    nparts = (2 if mode == 'multi' else 1) * (8 if (tier != 'quick' and kind == 'exception' and not prior) else 1)
+                    for part in range(nparts):
+                        out.append({'level': 'newsite', 'mode': mode, 'method': method, 'kind': kind, 'part': part, 'nparts': nparts,
+                                    'prior': prior, 'config': 'plain'})
+            # line level
+            if method == 'nla' or tier != 'quick':
+                for kind in ('exception', 'kill', 'interrupt'):
+                    nparts = 8 if (kind == 'exception' or tier != 'quick') and method == 'nla' else 2
+                    for part in range(nparts):
+                        out.append({'level': 'line', 'mode': mode, 'method': method, 'kind': kind, 'part': part, 'nparts': nparts, 'prior': False,
+                                    'config': 'plain'})
+                for part in range(2):
+                    out.append({'level': 'line', 'mode': mode, 'method': method, 'kind': 'exception', 'part': part, 'nparts': 2, 'prior': True,
+                                'config': 'plain'})
+    # a damaged input: reading block k fails (every data block), fresh and as a re-run over a finished output
+    for mode in ('single', 'multi'):
+        for method in ('nla', 'chic'):
+            for prior in (False, True):
+                if tier == 'quick' and method == 'chic' and prior:
+                    continue
+                out.append({'level': 'damaged', 'mode': mode, 'method': method, 'kind': 'readerror', 'part': 0, 'nparts': 1, 'prior': prior,
+                            'config': 'plain'})
+                if not prior:
+                    out.append({'level': 'damaged', 'mode': mode, 'method': method, 'kind': 'readerror', 'part': 0, 'nparts': 1,
+                                'prior': prior, 'config': 'unmapped_tail'})
+    # cluster mode with the local scheduler (each execution runs several interpreters: few, one per shard)
+    for i, plan in enumerate(CLUSTER_PLANS):
+        if tier == 'quick' and i not in (0, 1):
+            continue
+        out.append({'level': 'cluster', 'mode': 'cluster', 'method': 'nla', 'kind': 'fail', 'part': i, 'nparts': len(CLUSTER_PLANS), 'prior': False,
+                    'config': 'plain'})
+    if tier != 'quick':
+        out.append({'level': 'cluster', 'mode': 'cluster', 'method': 'chic', 'kind': 'fail', 'part': 0, 'nparts': len(CLUSTER_PLANS), 'prior': False,
+                    'config': 'plain'})
+        for i in (1, 5):
+            out.append({'level': 'cluster', 'mode': 'cluster', 'method': 'nla', 'kind': 'fail', 'part': i, 'nparts': len(CLUSTER_PLANS), 'prior': True,
+                        'config': 'plain'})
+    # a real multiprocessing.Pool: a worker raising (quick) / workers dying, the parent hangs and is killed after a timeout (thorough)
+    for i, plan in enumerate(REALPOOL_PLANS):
+        if tier == 'quick' and i not in (0, 1):
+            continue
+        out.append({'level': 'realpool', 'mode': 'realpool', 'method': 'nla', 'kind': 'worker', 'part': i, 'nparts': len(REALPOOL_PLANS), 'prior': False,
+                    'config': 'plain'})
+    for config in OPTION_CONFIGS:
+        for mode in CONFIGS[config]['modes']:
+            for method in (('nla',) if tier == 'quick' else ('nla', 'chic')):
+                if CONFIGS[config].get('may_fail') or (tier == 'quick' and CONFIGS[config].get('quick_clean_only')):
+                    out.append({'level': 'config', 'mode': mode, 'method': method, 'kind': 'exception', 'part': 0, 'nparts': 1, 'prior': False,
+                                'config': config})
+                    continue
+                nparts = 3 if mode == 'multi' else 1
+                for part in range(nparts):
+                    for kind in (('exception', 'kill') if tier == 'quick' else ('exception', 'kill', 'interrupt', 'oserror')):
+                        out.append({'level': 'config', 'mode': mode, 'method': method, 'kind': kind, 'part': part, 'nparts': nparts, 'prior': False,
+                                    'config': config})
+                    if tier != 'quick' or config in ('relpath', 'dotted', 'onefile', 'samtools'):
+                        out.append({'level': 'config', 'mode': mode, 'method': method, 'kind': 'exception', 'part': part, 'nparts': nparts, 'prior': True,
+                                    'config': config})
+    return _balanced(out)
+
+
+def _weight(sh):
+    """rough number of executions of a shard (the engine puts shard i into group i % 64; groups run one after the other in a worker)"""
+    multi = sh['mode'] == 'multi'
+    w = {'site': 25 if multi else 12, 'newsite': 60 if multi else 35, 'config': 45 if multi else 45, 'damaged': 14,
+         'cluster': 200, 'realpool': 5}.get(sh['level'], 10)
+    if sh['level'] == 'line':
+        w = (600 if multi else 340) // sh['nparts'] if (sh['kind'] == 'exception' and not sh['prior']) else 20
+    if sh['level'] == 'realpool' and any(p[3] == 'kill' for p in REALPOOL_PLANS[sh['part']]):
+        w = 120
+    if sh['prior']:
+        w *= 2
+    return w
+
+
+def _balanced(shards_):
+    """heaviest first, dealt out in snake order over the 64 groups (a pure reordering: the shards still partition the space)"""
+    ordered = sorted(range(len(shards_)), key=lambda i: (-_weight(shards_[i]), i))
+    G = 64
+    rows = [ordered[i:i + G] for i in range(0, len(ordered), G)]
+    out = []
+    for r, row in enumerate(rows):
+        if r % 2 and len(row) == G:
+            row = row[::-1]
+        out += [shards_[i] for i in row]
     return out
 
 
+def _nontrivial(first):
+    written_sites = {'header_rewrite', 'sort', 'index', 'merge', 'cleanup', 'fs_move', 'fs_rename', 'external_tool'}
+    return first[0] in written_sites or (first[0] == 'write_pysam' and (first[1] > 0 or first[2] == 'after')) or first[0] == 'pool_job'
+
+
+def _count(acc, level, config, kind, prior, info):
+    """the evidence keeps only the 12 most frequent outcome labels: these counters show that every dimension was exercised"""
+    acc.count(f'executions:level={level}', 1)
+    acc.count(f'executions:config={config}', 1)
+    acc.count(f'executions:kind={kind}', 1)
+    if prior:
+        acc.count('executions:re-run-over-finished-output', 1)
+    says = info['status'] is not None and (SUCCESS in info['status'] or CLUSTER_SUCCESS in info['status'])
+    acc.count(f"final-status:{'success' if says else 'not-success'}:exit={'0' if info['exit'] == 0 else 'nonzero'}", 1)
+
+
+def _not_for_rerun(p):
+    # the status file cannot be opened at all: nothing a run could do about a stale text
+    return p[0] == 'status_write' and p[1] == 0 and p[2] == 'before'
+
+
 def run_shard(shard, tier, acc):
-    mode, method, kind, part, nparts, prior = shard
-    pts, viol0, info0 = points_for(mode, method)
-    if part == 0 and kind == 'exception' and not prior:
-        case = {'mode': mode, 'method': method, 'plan': []}
-        acc.case(case, transitions=len(pts), nontrivial=False, outcome=f'clean:exit={info0["exit"]}:status={info0["status"]}')
+    if isinstance(shard, (tuple, list)):          # shard description of the first version
+        mode, method, kind, part, nparts, prior = shard
+        shard = {'level': 'site', 'mode': mode, 'method': method, 'kind': kind, 'part': part, 'nparts': nparts, 'prior': prior, 'config': 'plain'}
+    level, mode, method, kind = shard['level'], shard['mode'], shard['method'], shard['kind']
+    part, nparts, prior, config = shard['part'], shard['nparts'], shard['prior'], shard['config']
+    cfg = CONFIGS[config]
+    if cfg.get('may_fail') or (tier == 'quick' and cfg.get('quick_clean_only')):
+        # the run cannot start (one execution, judged like any other: the status must not say success) / fault-free slice of the quick tier
+        case = {'mode': mode, 'method': method, 'plan': [], 'config': config}
+        viols, info = run_plan(mode, method, [], config=config)
+        acc.case(case, transitions=1, nontrivial=False, outcome=f'{mode}:{config}:no-fault:exit={info["exit"]}:status={(info["status"] or "none")[:12]}')
+        _count(acc, level, config, kind, prior, info)
+        for sig, d in viols:
+            acc.violation(sig, case, d)
+        if not cfg.get('may_fail') and (info['exit'] != 0 or info['status'] is None or SUCCESS not in info['status']):
+            acc.violation(f'{mode}:{method}:{config}:fault-free-run-did-not-report-success', case, info)
+        return
+    if level in ('cluster', 'realpool'):
+        plan = (CLUSTER_PLANS if level == 'cluster' else REALPOOL_PLANS)[part]
+        case = {'level': level, 'mode': mode, 'method': method, 'plan': [list(p) for p in plan], 'prior': prior, 'config': config}
+        viols, info = run_cluster(method, plan, prior=prior) if level == 'cluster' else run_realpool(method, plan)
+        what = '+'.join(f'{p[0]}:{p[1]}:{p[2]}:{p[3]}' for p in plan) or 'no-fault'
+        acc.case(case, transitions=1, nontrivial=bool(plan),
+                 outcome=f"{level}:{'rerun:' if prior else ''}{what}:exit={info['exit']}:status={(info['status'] or 'none')[:12]}")
+        _count(acc, level, config, kind, prior, info)
+        for sig, dd in viols:
+            acc.violation(sig, case, dd)
+        if not plan and not prior:
+            ok = info['exit'] == 0 and info['status'] is not None and (SUCCESS in info['status'] or (level == 'cluster' and CLUSTER_SUCCESS in info['status']))
+            if not ok:
+                acc.violation(f'{level}:{method}:fault-free-run-did-not-report-success', case, info)
+        return
+    if level == 'damaged':
+        d = tempfile.mkdtemp(prefix='c20_', dir='/dev/shm')
+        try:
+            probe = os.path.join(d, 'in.bam')
+            build_input(probe, method, variant=CONFIGS[config].get('input'))
+            nblocks = reblock(probe)
+            intact = len(records(probe))
+        finally:
+            shutil.rmtree(d, ignore_errors=True)
+        for k in range(nblocks):
+            plan = [('damaged_input', k, 'block', 'readerror')]
+            case = {'mode': mode, 'method': method, 'plan': [list(p) for p in plan], 'prior': prior, 'config': config}
+            viols, info = run_plan(mode, method, plan, prior=prior, config=config)
+            acc.case(case, transitions=1, nontrivial=True,
+                     outcome=f"{mode}:{'rerun:' if prior else ''}damaged-input-block:exit={info['exit']}:status={(info['status'] or 'none')[:12]}")
+            _count(acc, level, config, kind, prior, info)
+            for sig, dd in viols:
+                acc.violation(sig, case, dd)
+        if config == 'unmapped_tail':
+            # a damaged RECORD in front of each record of the unmapped tail (the blocks themselves stay valid)
+            d = tempfile.mkdtemp(prefix='c20_', dir='/dev/shm')
+            try:
+                probe = os.path.join(d, 'in.bam')
+                build_input(probe, method, variant='unmapped_tail')
+                ntail = reblock_tail(probe)
+                if len(records(probe)) != 26 or ntail != 8:
+                    raise HarnessError(f'C20: unmapped-tail input holds {len(records(probe))} records, {ntail} in the tail')
+            finally:
+                shutil.rmtree(d, ignore_errors=True)
+            for j in range(ntail):
+                plan = [('damaged_input', j, 'tail-record', 'readerror')]
+                case = {'mode': mode, 'method': method, 'plan': [list(p) for p in plan], 'prior': prior, 'config': config}
+                viols, info = run_plan(mode, method, plan, prior=prior, config=config)
+                acc.case(case, transitions=1, nontrivial=True,
+                         outcome=f"{mode}:damaged-record-in-unmapped-tail:exit={info['exit']}:status={(info['status'] or 'none')[:12]}")
+                _count(acc, level, config, kind, prior, info)
+                for sig, dd in viols:
+                    acc.violation(sig, case, dd)
+        if intact != (26 if config == 'unmapped_tail' else 20):
+            raise HarnessError(f'C20: the re-blocked input holds {intact} records instead of 20')
+        return
+    allpts, lines, viol0, info0 = points_for(mode, method, config)
+    cfgsig = '' if config == 'plain' else ':' + config
+    if part == 0 and kind == 'exception' and not prior and level in ('site', 'config'):
+        case = {'mode': mode, 'method': method, 'plan': [], 'config': config}
+        acc.case(case, transitions=len(allpts) + len(lines), nontrivial=False, outcome=f'clean{cfgsig}:exit={info0["exit"]}:status={info0["status"]}')
         for sig, d in viol0:
             acc.violation(sig, case, d)
         if info0['exit'] != 0 or info0['status'] is None or SUCCESS not in info0['status']:
-            acc.violation(f'{mode}:{method}:fault-free-run-did-not-report-success', case, info0)
-    plans = [[(s, o, w, kind)] for (s, o, w) in pts]
-    if kind == 'exception':
-        plans += [[('badargs', k, 'setup', 'exception')] for k in sorted(BADARGS)]
-    if bounds(tier)['deviation_bound'] >= 2 and kind == 'exception' and not prior:
-        for i in range(len(pts) - 1):
-            plans.append([pts[i] + (kind,), pts[i + 1] + (kind,)])
-        # sort is retried at other temp locations: all three attempts failing
-        sorts = [p for p in pts if p[0] == 'sort' and p[2] == 'before']
-        if sorts:
-            s0 = sorts[0]
-            plans.append([('sort', s0[1] + j, 'before', kind) for j in range(3)])
-    written_sites = {'header_rewrite', 'sort', 'index', 'merge', 'cleanup'}
+            acc.violation(f'{mode}:{method}{cfgsig}:fault-free-run-did-not-report-success', case, info0)
+    plans = []
+    if level == 'site':
+        pts = [p for p in allpts if _is_old_point(p)]
+        plans = [[(s, o, w, kind)] for (s, o, w) in pts]
+        if kind == 'exception':
+            plans += [[('badargs', k, 'setup', 'exception')] for k in sorted(BADARGS)]
+            if prior:
+                plans.append([])        # the plain re-run (no fault) on another input than the earlier run: the old output must not survive
+        if bounds(tier)['deviation_bound'] >= 2 and kind == 'exception' and not prior:
+            for i in range(len(pts) - 1):
+                plans.append([pts[i] + (kind,), pts[i + 1] + (kind,)])
+            # sort is retried at other temp locations: all three attempts failing
+            sorts = [p for p in pts if p[0] == 'sort' and p[2] == 'before']
+            if sorts:
+                s0 = sorts[0]
+                plans.append([('sort', s0[1] + j, 'before', kind) for j in range(3)])
+    elif level == 'newsite':
+        for p in allpts:
+            if (kind == 'oserror' or not _is_old_point(p)) and not (prior and _not_for_rerun(p)):
+                plans.append([p + (kind,)])
+        if kind == 'exception' and tier != 'quick' and not prior:
+            # fault sequences (deviation bound 2) over ALL points: a second exception at each of the next 6 points of the fault-free run
+            # (after a retried sort the run continues: sort fails, then index / remove / move / status write fails), and a first
+            # exception followed by a failing or partial write of whatever status comes next (the FAIL text of the handler)
+            for i in range(len(allpts)):
+                for j in range(i + 1, min(i + 7, len(allpts))):
+                    if _is_old_point(allpts[i]) and _is_old_point(allpts[j]) and j == i + 1:
+                        continue        # the consecutive pairs of the first version are enumerated at the site level
+                    plans.append([allpts[i] + (kind,), allpts[j] + (kind,)])
+            nstatus = len({p[1] for p in allpts if p[0] == 'status_write'})
+            for p in allpts:
+                if p[0] == 'status_write':
+                    continue
+                for occ in range(1, nstatus):
+                    for when in ('before', 'inside', 'inside-all-but-newline'):
+                        plans.append([p + (kind,), ('status_write', occ, when, 'oserror')])
+        if kind in ('exception', 'oserror'):
+            # sort is retried at other temp locations: all three attempts of one sort failing, for every sort and every variant
+            for s0 in [p for p in allpts if p[0] == 'sort' and p[2] == 'before']:
+                if s0[1] > 0 and mode == 'single':
+                    continue
+                for when in ('before', 'inside', 'inside-subset'):
+                    plans.append([('sort', s0[1] + j, when, kind) for j in range(3)])
+    elif level == 'line':
+        every = tier != 'quick' and method == 'nla' and not prior
+        for (site, occ, st, sk, started) in select_lines(lines, 'kill' if prior else kind, every):
+            if prior and not started:
+                continue            # before the run touched its input or wrote anything: not a tagging step
+            plans.append([(site, occ, 'before', kind)])
+    elif level == 'config':
+        pts = list(allpts)
+        if config in ('relpath', 'dotted'):
+            pts = [p for p in pts if p[0] != 'write_pysam']          # only the paths differ from the plain configuration
+        elif tier == 'quick':
+            # quick: the first and the last molecule write only (every write k of n: plain configuration and thorough tier)
+            last = max([p[1] for p in pts if p[0] == 'write_pysam'], default=0)
+            pts = [p for p in pts if p[0] != 'write_pysam' or p[1] in (0, last)]
+        if prior:
+            pts = [p for p in pts if not _not_for_rerun(p)]
+        plans = [[p + (kind,)] for p in pts]
+        if config == 'samtools' and not prior:
+            # the external tool fails (nothing / half an output written): merge falls back to pysam.merge, the header rewrite gives up;
+            # alone and together with every later point of the final steps
+            for beh in SAMTOOLS_FAILURES:
+                if mode == 'single' and beh.startswith('merge'):
+                    continue
+                if kind == 'exception':
+                    plans.append([('samtools', beh, 'run', 'exception')])
+                if beh.startswith('merge') and kind in ('exception', 'kill'):
+                    for p in allpts:
+                        if p[0] in ('merge', 'cleanup') or (p[0] == 'status_write' and p[1] > 0):
+                            plans.append([('samtools', beh, 'run', 'exception'), p + (kind,)])
+        if tier != 'quick' and kind == 'kill' and not prior:
+            for (site, occ, st, sk, started) in select_lines(lines, 'kill', False):
+                plans.append([(site, occ, 'before', kind)])
     for i, plan in enumerate(plans):
         if i % nparts != part:
             continue
-        case = {'mode': mode, 'method': method, 'plan': [list(p) for p in plan], 'prior': prior}
-        viols, info = run_plan(mode, method, plan, prior=prior)
-        first = plan[0]
-        nontrivial = first[0] in written_sites or (first[0] == 'write_pysam' and (first[1] > 0 or first[2] == 'after')) or first[0] == 'pool_job'
+        case = {'mode': mode, 'method': method, 'plan': [list(p) for p in plan], 'prior': prior, 'config': config}
+        viols, info = run_plan(mode, method, plan, prior=prior, config=config)
+        first = plan[0] if plan else ('no-fault', 0, 'none')
+        cfgl = '' if config == 'plain' else f'{config}:'
+        if first[0] == 'samtools':
+            cfgl += f'external-{first[1]}:'
+            if len(plan) > 1:
+                first = plan[1]
+        if first[0].startswith('line@'):
+            label = 'line:' + first[0][5:].split(':')[1]
+            nontrivial = any(l[4] for l in lines if l[0] == first[0] and l[1] == first[1])
+        else:
+            label = f'{first[0]}:{first[2]}'
+            nontrivial = _nontrivial(first) or (bool(plan) and plan[0][0] == 'samtools')
         acc.case(case, transitions=1, nontrivial=nontrivial,
-                 outcome=f"{mode}:{'rerun:' if prior else ''}{first[0]}:{first[2]}:{kind}:exit={info['exit']}:status={(info['status'] or 'none')[:12]}")
+                 outcome=f"{mode}:{cfgl}{'rerun:' if prior else ''}{label}:{kind}:exit={info['exit']}:status={(info['status'] or 'none')[:12]}")
+        _count(acc, level, config, kind, prior, info)
         for sig, d in viols:
             acc.violation(sig, case, d)
 
 
 def replay(case):
     plan = [tuple(p) for p in case['plan']]
-    viols, info = run_plan(case['mode'], case['method'], plan, prior=case.get('prior', False))
-    if not plan and (info['exit'] != 0 or info['status'] is None or SUCCESS not in info['status']):
-        viols.append((f"{case['mode']}:{case['method']}:fault-free-run-did-not-report-success", info))
+    config = case.get('config', 'plain')
+    if case.get('level') in ('cluster', 'realpool'):
+        cluster = case['level'] == 'cluster'
+        viols, info = run_cluster(case['method'], plan, prior=case.get('prior', False)) if cluster else run_realpool(case['method'], plan)
+        if not plan and not case.get('prior'):
+            ok = info['exit'] == 0 and info['status'] is not None and (SUCCESS in info['status'] or (cluster and CLUSTER_SUCCESS in info['status']))
+            if not ok:
+                viols.append((f"{case['level']}:{case['method']}:fault-free-run-did-not-report-success", info))
+        return viols
+    viols, info = run_plan(case['mode'], case['method'], plan, prior=case.get('prior', False), config=config)
+    if not plan and not case.get('prior') and not CONFIGS[config].get('may_fail') and \
+            (info['exit'] != 0 or info['status'] is None or SUCCESS not in info['status']):
+        viols.append((f"{case['mode']}:{case['method']}{':' + config if config != 'plain' else ''}:fault-free-run-did-not-report-success", info))
     return viols
